@@ -129,7 +129,8 @@ func (fc *FnCtx) runAnchors(anchor, when string, pos token.Pos) {
 			for _, it := range strings.Split(a.Src, ",") {
 				items = append(items, strings.TrimSpace(it))
 			}
-			if precise := fc.modifiesNames(env, items, ns); len(precise) > 0 {
+			fc.bytesOfBases = nil
+			if precise := fc.modifiesNames(env, items, ns); len(precise) > 0 || len(fc.bytesOfBases) > 0 {
 				userErr("interference: *p items are not supported (%s)", a.Src)
 			}
 			fc.cur = fc.cur.havocked(ns)
@@ -280,7 +281,7 @@ func foreignWrites(sig *types.Signature, ns *NameSet) {
 
 // applyContract: check requires, havoc modifies, assume ensures. cond restricts the call to a case (invoke dispatch).
 func (fc *FnCtx) applyContract(callee *ssa.Function, c *Contract, args []Val, binds []Val, pos token.Pos, resT types.Type, cond string, short string) Val {
-	env := &Env{fc: fc, pkg: fc.eng.contractPkg(callee, c), vars: map[string]Val{}, bound: map[string]Val{}}
+	env := &Env{fc: fc, pkg: fc.eng.contractPkg(callee, c), vars: map[string]Val{}, bound: map[string]Val{}, callSite: true}
 	for i, p := range callee.Params {
 		if i < len(args) {
 			env.vars[p.Name()] = fc.coerce(args[i], p.Type())
@@ -352,7 +353,12 @@ func (fc *FnCtx) applyContract(callee *ssa.Function, c *Contract, args []Val, bi
 			}
 		}
 	}
-	for _, e := range c.Ensures {
+	env.dualQuant = true
+	defer func() { env.dualQuant = false }()
+	for ei, e := range c.Ensures {
+		if fc.skipEnsures(c, ei) {
+			continue
+		}
 		var used [][2]string
 		if quantVars {
 			for _, v := range c.Vars {
@@ -437,8 +443,20 @@ func (fc *FnCtx) havocForContract(callee *ssa.Function, c *Contract, env *Env, p
 	}
 	ns := newNameSet()
 	post := pre
+	fc.bytesOfBases = nil
 	precise := fc.modifiesNames(env, c.Modifies, ns)
 	post = pre.havocked(ns)
+	if len(fc.bytesOfBases) > 0 && !ns.All && !ns.Has("E|uint8|0") {
+		inner := arraySort(bvSort(64), bvSort(8))
+		srt := arraySort(SortRef, inner)
+		arr := post.get("E|uint8|0", srt)
+		for _, b := range fc.bytesOfBases {
+			arr = app("store", arr, b, fc.declareFresh("modbytes", inner))
+		}
+		post = post.derive()
+		post.set("E|uint8|0", srt, arr)
+	}
+	fc.bytesOfBases = nil
 	saved := fc.cur
 	fc.cur = post
 	for _, p := range precise {
@@ -489,6 +507,17 @@ func (fc *FnCtx) modifiesNames(env *Env, items []string, ns *NameSet) []Val {
 				ns.Add(fmt.Sprintf("E|%s|%d", typeKey(t), k))
 			}
 		case item == "nothing":
+		case strings.HasPrefix(item, "bytesof "):
+			// only the backing array of this byte slice (and arrays allocated by the callee) may be written
+			e, err := parseExprSrc(strings.TrimPrefix(item, "bytesof "))
+			if err != nil {
+				userErr("modifies item %s: %v", item, err)
+			}
+			sv := env.eval(e)
+			if len(sv.L) != 4 {
+				userErr("modifies item %s: not a slice", item)
+			}
+			fc.bytesOfBases = append(fc.bytesOfBases, sv.L[0])
 		default:
 			fc.eng.modifiesItemNames(env, item, ns)
 		}
@@ -819,7 +848,10 @@ func (fc *FnCtx) doInvoke2(cc *ssa.CallCommon, recv Val, it types.Type, mname, i
 			}
 			env.st, env.old = post, pre
 			env.results = splitResults(res, cd.fn.Signature.Results())
-			for _, e := range c.Ensures {
+			for ei, e := range c.Ensures {
+				if fc.skipEnsures(c, ei) {
+					continue
+				}
 				post.assume(implies(cond, env.evalBool(e)))
 			}
 			continue
@@ -904,7 +936,10 @@ func (fc *FnCtx) applyIfaceContract(c *Contract, cc *ssa.CallCommon, recv Val, a
 	res := fc.freshValWF("r_"+short, resT)
 	env.st, env.old = post, pre
 	env.results = splitResults(res, sig.Results())
-	for _, e := range c.Ensures {
+	for ei, e := range c.Ensures {
+		if fc.skipEnsures(c, ei) {
+			continue
+		}
 		post.assume(env.evalBool(e))
 	}
 	return res
@@ -1296,7 +1331,19 @@ func isCancelFunc(v ssa.Value) bool {
 }
 
 func (fc *FnCtx) contentOn() bool {
-	return fc.eng.contentMode || (fc.c != nil && fc.c.Content)
+	if fc.eng.contentMode {
+		return true
+	}
+	c := fc.c
+	if c == nil || !c.Content {
+		return false
+	}
+	return len(c.ContentProps) == 0 || fc.eng.curProp == "" || contains(c.ContentProps, fc.eng.curProp)
+}
+
+// skipEnsures: content postconditions of a callee are used only by callers verified in content mode
+func (fc *FnCtx) skipEnsures(c *Contract, i int) bool {
+	return i < len(c.EnsuresContent) && c.EnsuresContent[i] && !fc.contentOn()
 }
 
 // appendExact: append(s, v1..vn) gets the exact content model (see appendElems).
